@@ -63,7 +63,7 @@ def run(ctx):
     prog = ctx.prog
     # ---- R02.1 = C01 permit typestate --------------------------------------
     n0 = len(ctx.obs)
-    rules_C01.run(ctx)
+    rules_C01.run(ctx, with_resize=False)
     for o in ctx.obs[n0:]:
         o['rule'] = 'R02.1/' + o['rule']
     ctx.not_decided.clear()
